@@ -367,3 +367,380 @@ theorem EvalsTail.cond_iff {σ ρ t c a l tv σ₁} (ht : Evals σ ρ t (.ok tv)
       · obtain ⟨rfl, rfl⟩ := h; exact EvalsTail.cond_void ht htv
 
 end Ruschm.Eval
+
+/-! ## machinery for evaluating concrete loops -/
+
+namespace Ruschm
+open Eval Prim
+
+namespace Store
+
+/-- the store after a completed activation nested `k` levels deep: only `maxDepth` may have risen -/
+def bump (σ : Store) (k : Nat) : Store := { σ with maxDepth := max σ.maxDepth (σ.depth + k) }
+
+theorem leave_enter (σ : Store) : leave (enter σ) = σ.bump 1 := rfl
+
+@[simp] theorem bump_bump (σ : Store) (j k : Nat) : (σ.bump j).bump k = σ.bump (max j k) := by
+  simp only [bump]
+  congr 1
+  omega
+
+@[simp] theorem bump_frames (σ : Store) (k : Nat) : (σ.bump k).frames = σ.frames := rfl
+@[simp] theorem bump_depth (σ : Store) (k : Nat) : (σ.bump k).depth = σ.depth := rfl
+@[simp] theorem bump_maxDepth (σ : Store) (k : Nat) : (σ.bump k).maxDepth = max σ.maxDepth (σ.depth + k) := rfl
+
+theorem lookupAux_frames_congr {σ τ : Store} (h : σ.frames = τ.frames) (k : String) :
+    ∀ n ρ, σ.lookupAux n ρ k = τ.lookupAux n ρ k := by
+  intro n
+  induction n with
+  | zero => intro ρ; rfl
+  | succ n ih =>
+    intro ρ
+    simp only [lookupAux, h]
+    cases τ.frames[ρ]? with
+    | none => rfl
+    | some f =>
+      simp only
+      cases f.defs.lookup k with
+      | some v => rfl
+      | none =>
+        simp only
+        cases f.parent with
+        | none => rfl
+        | some p => simp only [ih p]
+
+theorem lookup_frames_congr {σ τ : Store} (h : σ.frames = τ.frames) (ρ : Nat) (k : String) :
+    σ.lookup ρ k = τ.lookup ρ k := lookupAux_frames_congr h k _ _
+
+@[simp] theorem lookup_bump (σ : Store) (j ρ : Nat) (k : String) : (σ.bump j).lookup ρ k = σ.lookup ρ k :=
+  lookup_frames_congr (σ := σ.bump j) (τ := σ) rfl ρ k
+
+/-- `ρ + 1` units of fuel are enough for the chain of frame `ρ`; more do not matter -/
+theorem lookupAux_fuel (σ : Store) (k : String) : ∀ n m ρ, ρ < n → ρ < m → σ.lookupAux n ρ k = σ.lookupAux m ρ k := by
+  intro n
+  induction n with
+  | zero => intro m ρ h; omega
+  | succ n ih =>
+    intro m ρ hn hm
+    obtain ⟨m, rfl⟩ : ∃ m', m = m' + 1 := ⟨m - 1, by omega⟩
+    simp only [lookupAux]
+    cases σ.frames[ρ]? with
+    | none => rfl
+    | some f =>
+      simp only
+      cases f.defs.lookup k with
+      | some v => rfl
+      | none =>
+        simp only
+        cases f.parent with
+        | none => rfl
+        | some p =>
+          simp only
+          by_cases hp : p < ρ
+          · simp only [hp, if_true]; exact ih m p (by omega) (by omega)
+          · simp only [hp, if_false]
+
+theorem lookup_here {σ : Store} {ρ : Nat} {f : Frame} {k : String} {v : Value} (hf : σ.frames[ρ]? = some f)
+    (hk : f.defs.lookup k = some v) : σ.lookup ρ k = some v := by
+  simp [lookup, lookupAux, hf, hk]
+
+theorem lookup_parent {σ : Store} {ρ p : Nat} {f : Frame} {k : String} (hf : σ.frames[ρ]? = some f)
+    (hk : f.defs.lookup k = none) (hp : f.parent = some p) (hlt : p < ρ) : σ.lookup ρ k = σ.lookup p k := by
+  have : σ.lookup ρ k = σ.lookupAux ρ p k := by
+    simp only [lookup]
+    rw [lookupAux]
+    simp only [hf, hk, hp, hlt, if_true]
+  rw [this]
+  exact lookupAux_fuel σ k ρ (p+1) p hlt (by omega)
+
+/-- the store with one more frame, a child of frame `parent` with the bindings `defs` -/
+def pushFrame (σ : Store) (parent : Nat) (defs : List (String × Value)) : Store :=
+  { σ with frames := σ.frames.push { parent := some parent, defs := defs } }
+
+theorem newFrame_eq (σ : Store) (p : Nat) : σ.newFrame (some p) = (σ.frames.size, σ.pushFrame p []) := rfl
+
+theorem modify_push_last {α} (A : Array α) (x : α) (f : α → α) : (A.push x).modify A.size f = A.push (f x) := by
+  apply Array.ext
+  · simp
+  · intro i h1 h2
+    simp [Array.getElem_modify, Array.getElem_push]
+    split <;> split <;> simp_all <;> omega
+
+theorem define_pushFrame (σ : Store) (p : Nat) (D : List (String × Value)) (k : String) (v : Value) :
+    (σ.pushFrame p D).define σ.frames.size k v = σ.pushFrame p (defsInsert D k v) := by
+  unfold define pushFrame
+  simp only [Array.size_push, Nat.lt_succ_self, dite_true, modify_push_last]
+
+@[simp] theorem pushFrame_depth (σ : Store) (p D) : (σ.pushFrame p D).depth = σ.depth := rfl
+@[simp] theorem pushFrame_maxDepth (σ : Store) (p D) : (σ.pushFrame p D).maxDepth = σ.maxDepth := rfl
+theorem pushFrame_frames (σ : Store) (p D) :
+    (σ.pushFrame p D).frames = σ.frames.push { parent := some p, defs := D } := rfl
+
+theorem pushFrame_get_last (σ : Store) (p D) :
+    (σ.pushFrame p D).frames[σ.frames.size]? = some { parent := some p, defs := D } := by
+  simp [pushFrame]
+
+theorem pushFrame_get_old (σ : Store) (p D) {i : Nat} (h : i < σ.frames.size) :
+    (σ.pushFrame p D).frames[i]? = σ.frames[i]? := by
+  simp [pushFrame, Array.getElem?_push, Nat.ne_of_lt h]
+
+/-- the chain of an old frame does not see the new frame -/
+theorem lookupAux_pushFrame (σ : Store) (p D) (k : String) : ∀ n ρ, ρ < σ.frames.size →
+    (σ.pushFrame p D).lookupAux n ρ k = σ.lookupAux n ρ k := by
+  intro n
+  induction n with
+  | zero => intro ρ _; rfl
+  | succ n ih =>
+    intro ρ hρ
+    simp only [lookupAux, pushFrame_get_old σ p D hρ]
+    cases σ.frames[ρ]? with
+    | none => rfl
+    | some f =>
+      simp only
+      cases f.defs.lookup k with
+      | some v => rfl
+      | none =>
+        simp only
+        cases f.parent with
+        | none => rfl
+        | some q =>
+          simp only
+          by_cases hq : q < ρ
+          · simp only [hq, if_true]; exact ih q (by omega)
+          · simp only [hq, if_false]
+
+/-- a parameter (or anything else bound in the new frame) is found there -/
+theorem lookup_pushFrame_here {σ : Store} {p : Nat} {D : List (String × Value)} {k : String} {v : Value}
+    (hk : D.lookup k = some v) : (σ.pushFrame p D).lookup σ.frames.size k = some v :=
+  lookup_here (pushFrame_get_last σ p D) hk
+
+/-- a name not bound in the new frame is looked up in the parent, in the old store -/
+theorem lookup_pushFrame_parent {σ : Store} {p : Nat} {D : List (String × Value)} {k : String}
+    (hk : D.lookup k = none) (hp : p < σ.frames.size) :
+    (σ.pushFrame p D).lookup σ.frames.size k = σ.lookup p k := by
+  rw [lookup_parent (pushFrame_get_last σ p D) hk rfl hp]
+  exact lookupAux_pushFrame σ p D k _ p hp
+
+end Store
+
+namespace Eval
+
+/-- the bindings `bindFixed` makes: `defsInsert` of each parameter in turn -/
+def bindList : List (String × Value) → List String → List Value → List (String × Value)
+  | D, f :: fs, a :: as => bindList (Store.defsInsert D f a) fs as
+  | D, _, _ => D
+
+theorem bindFixed_pushFrame (σ : Store) (p : Nat) : ∀ (fs : List String) (args : List Value) (D : List (String × Value)),
+    fs.length ≤ args.length →
+    bindFixed (σ.pushFrame p D) σ.frames.size fs args =
+      (.ok (args.drop fs.length), σ.pushFrame p (bindList D fs args))
+  | [], args, D, _ => by simp [bindFixed, bindList]
+  | f :: fs, [], D, h => by simp at h
+  | f :: fs, a :: as, D, h => by
+    rw [bindFixed, Store.define_pushFrame, bindFixed_pushFrame σ p fs as _ (by simpa using h)]
+    simp [bindList]
+
+/-- all the bindings of the parameter frame: the fixed parameters, then the rest parameter -/
+def paramDefs (F : Formals) (args : List Value) : List (String × Value) :=
+  match F.rest with
+  | some r => Store.defsInsert (bindList [] F.fixed args) r (Value.ofList (args.drop F.fixed.length))
+  | none => bindList [] F.fixed args
+
+/-- applying a procedure without internal definitions: its body runs in a new frame, child of the
+closure's frame, that binds the parameters -/
+theorem AppliesScheme.no_defs {σ lam cenv args r σ'} (hd : lam.defs = [])
+    (hlen : lam.formals.fixed.length ≤ args.length)
+    (hbody : EvalsBody (σ.pushFrame cenv (paramDefs lam.formals args)) σ.frames.size lam.body r σ') :
+    AppliesScheme σ lam cenv args r σ' := by
+  have hb := bindFixed_pushFrame σ cenv lam.formals.fixed args [] hlen
+  refine AppliesScheme.intro_ok (restArgs := args.drop lam.formals.fixed.length)
+    (σ₁ := σ.pushFrame cenv (bindList [] lam.formals.fixed args)) ?_ (hd ▸ EvalsDefs.nil) ?_
+  · rw [Store.newFrame_eq]; exact hb
+  · rw [Store.newFrame_eq]
+    have : Ref.bindRest (σ.pushFrame cenv (bindList [] lam.formals.fixed args)) σ.frames.size lam.formals.rest
+        (args.drop lam.formals.fixed.length) = σ.pushFrame cenv (paramDefs lam.formals args) := by
+      unfold Ref.bindRest paramDefs
+      cases lam.formals.rest with
+      | none => rfl
+      | some r => simp only; rw [Store.define_pushFrame]
+    simp only
+    rw [this]; exact hbody
+
+/-- a call, in operand position, of a native procedure that does not touch the store: one nested
+activation -/
+theorem Evals.call_builtin {σ ρ op l args l' b vs σ₁ v} (hop : σ.lookup ρ op = some (.builtin b))
+    (hb : b ≠ .apply) (hargs : EvalsArgs σ ρ args (.ok vs) σ₁)
+    (hok : arityOk b.arity.1 b.arity.2 vs.length = true) (hpure : ∀ τ, applyPure τ b vs = (.ok v, τ)) :
+    Evals σ ρ (.call (.sym op l) args l') (.ok v) (σ₁.bump 1) :=
+  Evals.call (Evals.sym hop) hargs rfl
+    (AppliesProc.of_loop (Applies.builtin hb hok (hpure _) (by simp)))
+
+/-! ### the arithmetic of the loops -/
+
+theorem exactRatio_one {x : Int} (h : fitsI32 x = true) : Num.exactRatio x 1 = .ok (.int x) := by
+  unfold Num.exactRatio
+  have h1 : fitsI32 1 = true := by decide
+  simp [h, h1]
+
+theorem applyPure_numEq (τ : Store) (a b : Int) :
+    applyPure τ .numEq [.num (.int a), .num (.int b)] = (.ok (.bool (a == b)), τ) := by
+  simp only [applyPure, cmpNum, expectNumber]
+  show lift τ (cmpNum.go Num.eq (.int a) [.num (.int b)]) _ = _
+  simp only [cmpNum.go, expectNumber]
+  show lift τ (if Num.eq (.int a) (.int b) = true then cmpNum.go Num.eq (.int b) [] else _) _ = _
+  have : Num.eq (.int a) (.int b) = (a == b) := rfl
+  rw [this]
+  cases a == b <;> rfl
+
+theorem applyPure_sub (τ : Store) {a b : Int} (h : fitsI32 (a - b) = true) :
+    applyPure τ .sub [.num (.int a), .num (.int b)] = (.ok (.num (.int (a - b))), τ) := by
+  simp only [applyPure, subDiv, expectNumber]
+  show lift τ (Num.sub (.int a) (.int b) >>= fun init => foldNum Num.sub init []) _ = _
+  have : Num.sub (.int a) (.int b) = .ok (.int (a - b)) := by
+    simp only [Num.sub, Num.upcast]; exact exactRatio_one h
+  rw [this]; rfl
+
+theorem applyPure_add (τ : Store) {a b : Int} (ha : fitsI32 a = true) (h : fitsI32 (a + b) = true) :
+    applyPure τ .add [.num (.int a), .num (.int b)] = (.ok (.num (.int (a + b))), τ) := by
+  simp only [applyPure, foldNum, List.foldlM_cons, List.foldlM_nil, expectNumber]
+  have h0 : Num.add (.int 0) (.int a) = .ok (.int a) := by
+    simp only [Num.add, Num.upcast, Int.zero_add]; exact exactRatio_one ha
+  have h1 : Num.add (.int a) (.int b) = .ok (.int (a + b)) := by
+    simp only [Num.add, Num.upcast]; exact exactRatio_one h
+  show lift τ (Num.add (.int 0) (.int a) >>= fun s => Num.add s (.int b) >>= pure) _ = _
+  rw [h0]
+  show lift τ (Num.add (.int a) (.int b) >>= pure) _ = _
+  rw [h1]; rfl
+
+/-! ### what a frame sees -/
+
+/-- frame `g` of `σ` exists and sees `k` bound to `v` -/
+def Sees (σ : Store) (g : Nat) (k : String) (v : Value) : Prop := g < σ.frames.size ∧ σ.lookup g k = some v
+
+theorem Sees.bump {σ g k v} (h : Sees σ g k v) (j : Nat) : Sees (σ.bump j) g k v :=
+  ⟨h.1, by rw [Store.lookup_bump]; exact h.2⟩
+
+theorem Sees.pushFrame {σ g k v} (h : Sees σ g k v) (p : Nat) (D : List (String × Value)) :
+    Sees (σ.pushFrame p D) g k v :=
+  ⟨by have := h.1; rw [Store.pushFrame_frames]; simp; omega, by
+    rw [← h.2]; exact Store.lookupAux_pushFrame σ p D k _ g h.1⟩
+
+/-- from the new parameter frame, a name that is not a parameter is seen as the closure's frame sees it -/
+theorem Sees.from_child {σ g k v} (h : Sees σ g k v) {D : List (String × Value)} (hk : D.lookup k = none) :
+    (σ.pushFrame g D).lookup σ.frames.size k = some v := by
+  rw [Store.lookup_pushFrame_parent hk h.1]; exact h.2
+
+theorem Sees.of_frames_eq {σ τ : Store} {g k v} (h : Sees σ g k v) (hf : τ.frames = σ.frames) : Sees τ g k v :=
+  ⟨hf ▸ h.1, by rw [Store.lookup_frames_congr hf]; exact h.2⟩
+
+theorem repeat_succ_eq (N : Nat) (A : Int) : Nat.repeat (fun a : Int => a + 1) N A = A + N := by
+  induction N with
+  | zero => simp [Nat.repeat]
+  | succ N ih => rw [Nat.repeat, ih]; omega
+
+/-! ### the counting loop -/
+
+/-- `(lambda (n acc) (if (= n 0) acc (loop (- n 1) (+ acc 1))))` -/
+def countLam : Lambda := .mk ⟨["n", "acc"], none⟩ []
+  [.cond (.call (.sym "=" none) [.sym "n" none, .prim (.int 0) none] none) (.sym "acc" none)
+     (some (.call (.sym "loop" none) [.call (.sym "-" none) [.sym "n" none, .prim (.int 1) none] none,
+        .call (.sym "+" none) [.sym "acc" none, .prim (.int 1) none] none] none)) none]
+
+/-- frame `g` sees `=`, `-`, `+` bound to the native procedures and `loop` to the closure of
+`countLam` over `g` itself: the state after `(define (loop n acc) …)` in frame `g` -/
+structure CountEnv (σ : Store) (g : Nat) : Prop where
+  eq : Sees σ g "=" (.builtin .numEq)
+  sub : Sees σ g "-" (.builtin .sub)
+  add : Sees σ g "+" (.builtin .add)
+  loop : Sees σ g "loop" (.closure countLam g)
+
+theorem CountEnv.step {σ g} (h : CountEnv σ g) (D : List (String × Value)) (j : Nat) :
+    CountEnv ((σ.pushFrame g D).bump j) g :=
+  ⟨(h.eq.pushFrame g D).bump j, (h.sub.pushFrame g D).bump j, (h.add.pushFrame g D).bump j,
+   (h.loop.pushFrame g D).bump j⟩
+
+theorem count_paramDefs (x y : Value) : paramDefs countLam.formals [x, y] = [("n", x), ("acc", y)] := by
+  simp [paramDefs, countLam, Lambda.formals, bindList, Store.defsInsert]
+
+/-- THE LOOP, by induction on the count: the whole run happens in ONE iteration sequence of the
+trampoline; `maxDepth` rises to `depth + 1` (the native calls in operand position) whatever `N` -/
+theorem count_loop (g env : Nat) : ∀ (N : Nat) (A : Int) (σ : Store), CountEnv σ g →
+    (N : Int) ≤ 2147483647 → -2147483648 ≤ A → A + N ≤ 2147483647 →
+    ∃ σ', Applies σ (.closure countLam g) [.num (.int N), .num (.int A)] env (.ok (.num (.int (A + N)))) σ' ∧
+      σ'.maxDepth = max σ.maxDepth (σ.depth + 1) := by
+  intro N
+  induction N with
+  | zero =>
+    intro A σ henv _ hA hAN
+    let D : List (String × Value) := [("n", .num (.int (0 : Nat))), ("acc", .num (.int A))]
+    have hn : (σ.pushFrame g D).lookup σ.frames.size "n" = some (.num (.int (0 : Nat))) :=
+      Store.lookup_pushFrame_here rfl
+    have hacc : ((σ.pushFrame g D).bump 1).lookup σ.frames.size "acc" = some (.num (.int A)) := by
+      rw [Store.lookup_bump]; exact Store.lookup_pushFrame_here rfl
+    have htest : Evals (σ.pushFrame g D) σ.frames.size
+        (.call (.sym "=" none) [.sym "n" none, .prim (.int 0) none] none) (.ok (.bool true))
+        ((σ.pushFrame g D).bump 1) :=
+      Evals.call_builtin (henv.eq.from_child rfl) (by decide)
+        (EvalsArgs.cons (Evals.sym hn) (EvalsArgs.cons (Evals.prim rfl) EvalsArgs.nil)) rfl
+        (fun τ => applyPure_numEq τ _ _)
+    refine ⟨(σ.pushFrame g D).bump 1, ?_, rfl⟩
+    have : A + ((0 : Nat) : Int) = A := by simp
+    rw [this]
+    refine Applies.closure_value rfl (AppliesScheme.no_defs rfl (by simp [countLam, Lambda.formals]) ?_)
+    rw [count_paramDefs]
+    exact EvalsBody.last (EvalsTail.cond_true htest rfl
+      (EvalsTail.other (by intros; exact Expr.noConfusion) (by intros; exact Expr.noConfusion) (Evals.sym hacc)))
+  | succ N ih =>
+    intro A σ henv hN hA hAN
+    let D : List (String × Value) := [("n", .num (.int ((N + 1 : Nat) : Int))), ("acc", .num (.int A))]
+    have hn : ∀ j, ((σ.pushFrame g D).bump j).lookup σ.frames.size "n" = some (.num (.int ((N + 1 : Nat) : Int))) := by
+      intro j; rw [Store.lookup_bump]; exact Store.lookup_pushFrame_here rfl
+    have hacc : ∀ j, ((σ.pushFrame g D).bump j).lookup σ.frames.size "acc" = some (.num (.int A)) := by
+      intro j; rw [Store.lookup_bump]; exact Store.lookup_pushFrame_here rfl
+    have hglob : ∀ {k v} j, Sees σ g k v → D.lookup k = none →
+        ((σ.pushFrame g D).bump j).lookup σ.frames.size k = some v := by
+      intro k v j hs hk; rw [Store.lookup_bump]; exact hs.from_child hk
+    have htest : Evals (σ.pushFrame g D) σ.frames.size
+        (.call (.sym "=" none) [.sym "n" none, .prim (.int 0) none] none) (.ok (.bool false))
+        ((σ.pushFrame g D).bump 1) := by
+      have h := Evals.call_builtin (σ := σ.pushFrame g D) (l := none) (l' := none) (henv.eq.from_child rfl) (by decide)
+        (EvalsArgs.cons (Evals.sym (s := "n") (l := none) (Store.lookup_pushFrame_here rfl))
+          (EvalsArgs.cons (Evals.prim (l := none) (p := .int 0) rfl) EvalsArgs.nil)) rfl
+        (fun τ => applyPure_numEq τ ((N + 1 : Nat) : Int) 0)
+      have hne : (((N + 1 : Nat) : Int) == 0) = false := by
+        simp only [beq_eq_false_iff_ne, ne_eq]; omega
+      rw [hne] at h; exact h
+    have hsub : Evals ((σ.pushFrame g D).bump 1) σ.frames.size
+        (.call (.sym "-" none) [.sym "n" none, .prim (.int 1) none] none) (.ok (.num (.int (N : Int))))
+        (((σ.pushFrame g D).bump 1).bump 1) := by
+      have h := Evals.call_builtin (l := none) (l' := none) (hglob 1 henv.sub rfl) (by decide)
+        (EvalsArgs.cons (Evals.sym (l := none) (hn 1))
+          (EvalsArgs.cons (Evals.prim (l := none) (p := .int 1) rfl) EvalsArgs.nil)) rfl
+        (fun τ => applyPure_sub τ (a := ((N + 1 : Nat) : Int)) (b := 1) (by simp [fitsI32]; omega))
+      have he : ((N + 1 : Nat) : Int) - 1 = (N : Int) := by omega
+      rw [he] at h; exact h
+    have hadd : Evals (((σ.pushFrame g D).bump 1).bump 1) σ.frames.size
+        (.call (.sym "+" none) [.sym "acc" none, .prim (.int 1) none] none) (.ok (.num (.int (A + 1))))
+        ((((σ.pushFrame g D).bump 1).bump 1).bump 1) := by
+      refine Evals.call_builtin (l := none) (l' := none) ?_ (by decide)
+        (EvalsArgs.cons (Evals.sym (l := none) ?_)
+          (EvalsArgs.cons (Evals.prim (l := none) (p := .int 1) rfl) EvalsArgs.nil)) rfl
+        (fun τ => applyPure_add τ (a := A) (b := 1) (by simp [fitsI32]; omega) (by simp [fitsI32]; omega))
+      · simp only [Store.bump_bump]; exact hglob _ henv.add rfl
+      · simp only [Store.bump_bump]; exact hacc _
+    simp only [Store.bump_bump, Nat.max_self] at hsub hadd
+    obtain ⟨σ', hl, hm⟩ := ih (A + 1) ((σ.pushFrame g D).bump 1) (henv.step D 1) (by omega) (by omega) (by omega)
+    refine ⟨σ', ?_, ?_⟩
+    · have he : A + ((N + 1 : Nat) : Int) = A + 1 + (N : Int) := by omega
+      rw [he]
+      refine Applies.closure_tail (f := .sym "loop" none) (tenv := σ.frames.size) rfl
+        (AppliesScheme.no_defs rfl (by simp [countLam, Lambda.formals]) ?_)
+        (Evals.sym (hglob 1 henv.loop rfl)) (EvalsArgs.cons hsub (EvalsArgs.cons hadd EvalsArgs.nil)) rfl hl
+      rw [count_paramDefs]
+      exact EvalsBody.last (EvalsTail.cond_false htest rfl EvalsTail.call)
+    · rw [hm]
+      simp only [Store.bump_maxDepth, Store.bump_depth, Store.pushFrame_depth, Store.pushFrame_maxDepth]
+      omega
+
+end Eval
+end Ruschm
